@@ -126,6 +126,26 @@ def small_scope(tier):
     return cases
 
 
+# representative byte values: both sides of every class boundary of the five modes
+REP = [0x00, 0x1f, 0x20, 0x24, 0x25, 0x2a, 0x2b, 0x2d, 0x2e, 0x2f, 0x30, 0x35, 0x39, 0x3a, 0x3f, 0x40, 0x41, 0x5a, 0x5b, 0x61, 0x7e, 0x7f,
+       0x80, 0x81, 0x82, 0x9f, 0xa0, 0xa1, 0xaa, 0xab, 0xaf, 0xb0, 0xdf, 0xe0, 0xea, 0xeb, 0xec, 0xf7, 0xfa, 0xfb, 0xfc, 0xfd, 0xfe, 0xff]
+
+
+def longer_scope(tier):
+    """All contents of length 3 (and 4) over representative byte values, automatic and requested modes."""
+    import itertools
+    vals3 = REP if tier == 'thorough' else REP[::2]
+    vals4 = REP[::2] if tier == 'thorough' else REP[::5]
+    cases = []
+    for n, vals in ((3, vals3), (4, vals4)):
+        for i, t in enumerate(itertools.product(vals, repeat=n)):
+            kw = {'micro': False, 'mask': 0}
+            if i % 5 == 1:
+                kw['mode'] = ('kanji', 'hanzi', 'alphanumeric', 'numeric')[(i // 5) % 4]
+            cases.append({'fn': 'make', 'content': {'t': 'bytes', 'v': bytes(t).hex()}, 'kw': kw})
+    return cases
+
+
 def requested_small(tier, seed):
     cases = []
     for m in gens.MODES:
@@ -196,5 +216,7 @@ def phases(tier, seed):
              note='all 256 + 65536 bytes contents of length 1 and 2, automatic mode'),
         Enum('requested-mode-small', lambda: requested_small(tier, seed), exhaustive=(tier == 'thorough'),
              note='requested mode x one- and two-byte contents'),
+        Enum('length-3-4-representative-bytes', lambda: longer_scope(tier), exhaustive=True,
+             note='all contents of length 3 and 4 over representative byte values (both sides of every class boundary)'),
         Search('texts', text_cases(), n),
     ]
